@@ -497,7 +497,7 @@ impl GRLQueryParser {
         let mut in_string = false;
         let mut escape_next = false;
 
-        for (i, ch) in input.chars().enumerate() {
+        for (i, ch) in input.char_indices() {
             if escape_next {
                 escape_next = false;
                 continue;
@@ -661,7 +661,7 @@ fn find_matching_brace(input: &str) -> Option<usize> {
     let mut in_string = false;
     let mut escape_next = false;
 
-    for (i, ch) in input.chars().enumerate() {
+    for (i, ch) in input.char_indices() {
         if escape_next {
             escape_next = false;
             continue;
